@@ -182,6 +182,11 @@ def fx_cloudsync(eng, st, pname):
 
 
 CONFIG_SETS["sides"] = [{"name": "changed=0", "changed": 0, "synced": 1}, {"name": "changed=1", "changed": 1, "synced": 0}]
+# sides x an exhaustive case split chosen by the lemma (w.case; the lemma's last case is the complement of the others),
+# so that the paths of a branchy function are generated by several workers instead of one
+CONFIG_SETS["update_cases"] = [{"name": "changed=%d,known=%d,exists=%d,path=%d" % (_c, _kn, _ex, _pa), "changed": _c, "synced": 1 - _c,
+                                "known": _kn, "exk": _ex, "has_path": _pa}
+                               for _c in (0, 1) for _kn in (0, 1) for _ex in (0, 1, 2) for _pa in (0, 1)]
 
 
 def _b_cs_side(eng, st, recv, args, kwargs):
